@@ -171,8 +171,15 @@ def r1_google_body_line(ctx):
 
 def r1_freeform_regroup(ctx):
     rep = ctx.rep
-    q = 'xdoctest.core.parse_freeform_docstr_examples.doctest_from_parts'
-    f = ctx.func(q)
+    # found by role: the function of core.py that builds a DocTest and rebases the line offsets of the parts it is given
+    cands = [fn for fn in ctx.prog.funcs.values() if fn.module.name == 'xdoctest.core'
+             and any(isinstance(x, (ast.AugAssign, ast.Assign)) and any(isinstance(t, ast.Attribute) and t.attr == 'line_offset' and isinstance(t.ctx, ast.Store)
+                     for t in ([x.target] if isinstance(x, ast.AugAssign) else x.targets)) for x in walk_scope(fn.node))
+             and any(isinstance(c, ast.Call) and ctx.res.resolve_call(fn, c)[0] == 'class' and ctx.res.resolve_call(fn, c)[1].qualname == DT for c in walk_scope(fn.node))]
+    if len(cands) != 1:
+        raise AnalysisError('anchor function vanished: the freeform regrouper of xdoctest.core (builds a DocTest and rebases part offsets) was not found uniquely (%d candidates)' % len(cands))
+    f = cands[0]
+    q = f.qualname
     g = ctx.cfg(f)
     ev = Evaluator({'lineno': 'Ls', 'curr_offset': 'Ld - Ls', 'parts[0].line_offset': 'Ld - Ls', 'p.line_offset': 'Lp - Ls'})
     res = _ctor_kw(ctx, f, g, ev, DT, 'lineno', 4)
